@@ -61,12 +61,191 @@ def extract():
     return facts
 
 
+GOOD = {
+    "broadcastLoopGuards": 0, "broadcastResultInserts": 1,
+    "aliasPresenceCheckFirst": True, "aliasSameOwnerEarlyReturn": True, "aliasDetachesPrevOwner": True,
+    "aliasDetachForm": "retain", "aliasPushForm": "push", "removeDropsPeer": True,
+    "removeTakesIndexEntry": True, "removePurgeGuard": "forward_eq_id", "keyForPick": "first",
+    "getByThroughPeers": True,
+}
+W = r"[A-Za-z_]\w*"
+
+
 def forms(src, imp, bcast, snap):
-    """Syntactic forms of the branches the model mirrors. A recognised *deviating* form becomes a
-    pessimistic fact (the theorem `source_forms` then fails); anything unrecognised raises
-    ExtractError (fallback to the committed defaults: the tie is then the correspondence alone)."""
+    """Syntactic forms of the branches the model mirrors, one recogniser per fact.  A recognised
+    *deviating* form becomes a pessimistic fact (`source_forms` / `broadcast_entry_points` then fail);
+    a form the recogniser does not know raises ExtractError *for that fact only*: the fact keeps its
+    committed default and is listed under `unrecognised` in the evidence (tie = correspondence alone)."""
     f = {}
-    # ---- NotifyBody::body_format arms and BodyFormat discriminants
+    unrec = []
+
+    def fact(name, fn):
+        try:
+            f[name] = fn()
+        except ExtractError as e:
+            f[name] = GOOD[name]
+            unrec.append(f"{name}: {e}")
+
+    f["helperFormat"] = helper_formats(src, imp)      # its own failure falls back as a whole (raises)
+    # ---- the send loop of broadcast_each: nothing may skip a peer of the snapshot
+    mloop = re.search(r"\bfor\s+\w+\s+in\s+" + re.escape(snap[0]) + r"\s*\{", bcast) if snap else None
+    if mloop:
+        i = bcast.find("{", mloop.end() - 1)
+        loop = bcast[i + 1:match_brace(bcast, i) - 1]
+        jumps = len(re.findall(r"\b(continue|break|return)\b|\?", loop))
+        # is the send or the result insert nested in a block of its own (an `if`, a `match` arm, ...)?
+        nested = 0
+        depth = 0
+        for j, ch in enumerate(loop):
+            if ch == "{":
+                depth += 1
+            elif ch == "}":
+                depth -= 1
+            elif depth > 0 and (loop.startswith(".send_notify", j) or loop.startswith("out.insert", j)):
+                nested += 1
+        f["broadcastLoopGuards"] = jumps + nested
+        f["broadcastResultInserts"] = len(re.findall(r"\.insert\s*\(", loop))
+    else:
+        f["broadcastLoopGuards"] = 1
+        f["broadcastResultInserts"] = 0
+    al = fn_body(imp, "alias")
+    rm = fn_body(imp, "remove")
+    kf = fn_body(imp, "key_for")
+    gb = fn_body(imp, "get_by")
+
+    def presence():
+        pos_insert = re.search(r"aliases\s*\.\s*insert\s*\(", al)
+        if not pos_insert:
+            raise ExtractError("forward insert not found")
+        checks = [re.search(r"if\s*!\s*" + W + r"\s*\.\s*peers\s*\.\s*contains_key\s*\(\s*&\s*peer_id\s*\)\s*\{", al),
+                  re.search(r"let\s+Some\s*\([^)]*\)\s*=\s*" + W + r"\s*\.\s*peers\s*\.\s*get\s*\(\s*&\s*peer_id\s*\)\s*else\s*\{\s*return\s+false", al),
+                  re.search(r"if\s+" + W + r"\s*\.\s*peers\s*\.\s*get\s*\(\s*&\s*peer_id\s*\)\s*\.\s*is_none\s*\(\s*\)\s*\{", al)]
+        checks = [c for c in checks if c]
+        if checks:
+            return min(c.start() for c in checks) < pos_insert.start()
+        if re.search(r"self\s*\.\s*lock\s*\(\s*\)\s*\.\s*peers\s*\.\s*(contains_key|get)\s*\(", al):
+            return False                      # checked under a different lock acquisition
+        if not re.search(r"peers\s*\.\s*(contains_key|get)\s*\(", al):
+            return False                      # no presence check at all
+        raise ExtractError("presence check form")
+
+    def detach_form():
+        m = re.search(r"\.\s*retain\s*\(\s*\|\s*(" + W + r")\s*\|\s*(.*?)\)\s*;", al, re.S)
+        if m:
+            v, body = m.group(1), " ".join(m.group(2).split())
+            ne = [f"{v} != &key", f"*{v} != key", f"{v}.as_str() != key", f"{v}.as_str() != key.as_str()", f"&key != {v}", f"{v} != &key.clone()"]
+            eq = [x.replace("!=", "==") for x in ne]
+            if body in ne:
+                return "retain"
+            if body in eq:
+                return "retain_inverted"
+            raise ExtractError(f"retain closure `{body}`")
+        if re.search(r"swap_remove\s*\(", al):
+            return "swap_remove"
+        if re.search(r"\.\s*clear\s*\(\s*\)", al):
+            return "clear"
+        if re.search(r"\.\s*(pop|truncate|drain|dedup)\s*\(", al):
+            return "other"
+        if re.search(r"position\s*\(", al) and re.search(r"\.\s*remove\s*\(", al):
+            return "remove_at"               # order-preserving Vec::remove at the found position
+        if "retain" not in al:
+            return "none"                     # nothing is taken out of the previous owner's list
+        raise ExtractError("detach form")
+
+    def detach_target():
+        if re.search(r"alias_index\s*\.\s*get_mut\s*\(\s*&\s*prev\s*\)", al):
+            # a second statement that drops a whole list in this branch is not part of the modelled form
+            if re.search(r"alias_index\s*\.\s*remove\s*\(", al):
+                return False
+            return True
+        if re.search(r"alias_index\s*\.\s*get_mut\s*\(\s*&\s*peer_id\s*\)", al) or "get_mut" not in al:
+            return False                      # detaches from the wrong list / from none
+        raise ExtractError("detach target")
+
+    def push_form():
+        pushes = len(re.findall(r"\.\s*push\s*\(", al))
+        if re.search(r"entry\s*\(\s*peer_id\s*\)\s*\.\s*or_default\s*\(\s*\)", al) and re.search(r"\.\s*push\s*\(\s*key(\.clone\(\))?\s*\)", al):
+            return "push" if pushes == 1 else "push_twice"
+        if re.search(r"\.\s*insert\s*\(\s*0\s*,", al):
+            return "insert_front"
+        raise ExtractError("push form")
+
+    def same_owner():
+        if re.search(r"Some\s*\(\s*prev\s*\)\s*if\s+prev\s*==\s*peer_id\s*=>\s*(return\s+true|\{\s*return\s+true\s*;?\s*\})", al):
+            return True
+        if re.search(r"if\s+prev\s*==\s*peer_id\s*\{\s*return\s+true\s*;?\s*\}", al):
+            return True
+        if not re.search(r"prev\s*==\s*peer_id|peer_id\s*==\s*prev|prev\s*!=\s*peer_id|peer_id\s*!=\s*prev", al):
+            return False                      # the same-owner case is not distinguished
+        raise ExtractError("same-owner form")
+
+    def drops_peer():
+        if re.search(r"peers\s*\.\s*remove\s*\(\s*&\s*id\s*\)", rm):
+            return True
+        if "peers" not in rm:
+            return False
+        raise ExtractError("primary removal form")
+
+    def index_entry():
+        if re.search(r"alias_index\s*\.\s*remove\s*\(\s*&\s*id\s*\)\s*\.\s*filter", rm):
+            return False
+        if re.search(r"alias_index\s*\.\s*remove\s*\(\s*&\s*id\s*\)", rm):
+            return True
+        if re.search(r"alias_index\s*\.\s*get(_mut)?\s*\(\s*&\s*id\s*\)", rm) or "alias_index" not in rm:
+            return False                      # entry left behind / ignored
+        raise ExtractError("reverse-index form")
+
+    def purge_guard():
+        if not re.search(r"aliases\s*\.\s*remove\s*\(\s*&?\s*key\s*\)", rm):
+            if re.search(r"aliases\s*\.\s*retain\s*\(\s*\|\s*_\s*,\s*(" + W + r")\s*\|\s*\*?\s*\1\s*!=\s*id\s*\)", rm):
+                return "forward_eq_id"        # `aliases.retain(|_, v| *v != id)`: the same set of keys
+            if "aliases" not in rm:
+                return "never"                # the forward map is not purged at all
+            raise ExtractError("purge form")
+        if re.search(r"if\s+" + W + r"\s*\.\s*aliases\s*\.\s*get\s*\(\s*&\s*key\s*\)\s*==\s*Some\s*\(\s*&\s*id\s*\)\s*\{\s*" + W + r"\s*\.\s*aliases\s*\.\s*remove\s*\(\s*&\s*key\s*\)\s*;\s*\}", rm):
+            return "forward_eq_id"
+        # is the remove call guarded by any condition at all?
+        m = re.search(r"for\s+key\s+in\s+keys\s*\{", rm)
+        if m:
+            i = rm.find("{", m.end() - 1)
+            body = rm[i + 1:match_brace(rm, i) - 1]
+            if not re.search(r"\b(if|match)\b", body):
+                return "none"                 # purges without the ownership check (a no-op under the invariant)
+            return "other"                    # a different guard decides what is purged
+        raise ExtractError("purge loop form")
+
+    def key_pick():
+        if re.search(r"\.\s*first\s*\(\s*\)|\.\s*get\s*\(\s*0\s*\)|\.\s*iter\s*\(\s*\)\s*\.\s*next\s*\(\s*\)", kf):
+            return "first"
+        if re.search(r"\.\s*last\s*\(\s*\)|next_back\s*\(\s*\)|\.\s*iter\s*\(\s*\)\s*\.\s*(last|max|min)\s*\(", kf):
+            return "last"
+        raise ExtractError("pick form")
+
+    def get_by_form():
+        if re.search(r"aliases\s*\.\s*get\s*\(\s*key\s*\)", gb) and re.search(r"peers\s*\.\s*get\s*\(\s*&?\s*\*?\s*id\s*\)", gb):
+            return True
+        if re.search(r"peers\s*\.\s*get\s*\(", gb) or re.search(r"\.\s*resolve\s*\(", gb):
+            raise ExtractError("goes through a helper")     # unknown but it does consult something else: keep default
+        if re.search(r"aliases\s*\.\s*get\s*\(", gb):
+            return False                      # resolves the alias without consulting the peer map
+        raise ExtractError("unrecognised form")
+
+    fact("aliasPresenceCheckFirst", presence)
+    fact("aliasDetachForm", detach_form)
+    fact("aliasDetachesPrevOwner", detach_target)
+    fact("aliasPushForm", push_form)
+    fact("aliasSameOwnerEarlyReturn", same_owner)
+    fact("removeDropsPeer", drops_peer)
+    fact("removeTakesIndexEntry", index_entry)
+    fact("removePurgeGuard", purge_guard)
+    fact("keyForPick", key_pick)
+    fact("getByThroughPeers", get_by_form)
+    if unrec:
+        f["unrecognised"] = unrec
+    return f
+
+
+def helper_formats(src, imp):
     consts = strip(read("src/constants.rs"))
     m = re.search(r"pub enum BodyFormat\s*\{([^}]*)\}", consts)
     if not m:
@@ -88,13 +267,16 @@ def forms(src, imp, bcast, snap):
     for h in ("broadcast_notify_json", "broadcast_notify_beve", "broadcast_notify_utf8", "broadcast_notify_raw"):
         body = fn_body(imp, h)
         vs = set(re.findall(r"NotifyBody::(\w+)\s*\(", body))
+        delegates = re.findall(r"self\s*\.\s*(broadcast_notify_\w+)\s*\(", body)
+        if delegates:
+            # a helper that hands (some of) its work to another helper does not have one format of its own
+            helper.append((h, 999))
+            continue
         if len(vs) != 1 or next(iter(vs)) not in tag:
             raise ExtractError(f"{h}: NotifyBody variants {vs}")
         v = next(iter(vs))
         code = tag[v]
         if code is None:
-            # Raw: the second constructor argument is the helper's own `body_format` parameter (passed
-            # through) or a literal `BodyFormat::X`
             lit = re.search(r"NotifyBody::Raw\s*\([^;]*,\s*BodyFormat::(\w+)\s*\)", body)
             if re.search(r"NotifyBody::Raw\s*\([^;]*,\s*body_format\s*\)", body) and re.search(r"\bbody_format\s*:\s*BodyFormat\b", imp[imp.find("fn " + h):imp.find("fn " + h) + 400]):
                 code = None
@@ -105,98 +287,7 @@ def forms(src, imp, bcast, snap):
         if len(re.findall(r"self\s*\.\s*broadcast_each\s*\(", body)) != 1:
             raise ExtractError(f"{h}: broadcast_each calls")
         helper.append((h, code))
-    f["helperFormat"] = helper
-    # ---- the send loop of broadcast_each: no guard may skip a peer of the snapshot
-    mloop = re.search(r"\bfor\s+\w+\s+in\s+" + re.escape(snap[0]) + r"\s*\{", bcast) if snap else None
-    if mloop:
-        i = bcast.find("{", mloop.end() - 1)
-        loop = bcast[i + 1:match_brace(bcast, i) - 1]
-        f["broadcastLoopGuards"] = len(re.findall(r"\b(if|continue|break|match|return|while)\b|\?", loop))
-        f["broadcastResultInserts"] = len(re.findall(r"\.insert\s*\(", loop))
-    else:
-        f["broadcastLoopGuards"] = 1
-        f["broadcastResultInserts"] = 0
-    # ---- alias
-    al = fn_body(imp, "alias")
-    pos_check = re.search(r"if\s*!\s*inner\s*\.\s*peers\s*\.\s*contains_key\s*\(\s*&\s*peer_id\s*\)\s*\{", al)
-    pos_insert = re.search(r"inner\s*\.\s*aliases\s*\.\s*insert\s*\(", al)
-    if not pos_insert:
-        raise ExtractError("alias: forward insert not found")
-    if pos_check:
-        f["aliasPresenceCheckFirst"] = pos_check.start() < pos_insert.start()
-    elif "contains_key" not in al and not re.search(r"peers\s*\.\s*get\s*\(", al):
-        f["aliasPresenceCheckFirst"] = False      # no presence check at all
-    elif re.search(r"self\s*\.\s*lock\s*\(\s*\)\s*\.\s*peers\s*\.\s*contains_key", al):
-        f["aliasPresenceCheckFirst"] = False      # checked under a different lock acquisition
-    else:
-        raise ExtractError("alias: presence check form")
-    has_prev = bool(re.search(r"alias_index\s*\.\s*get_mut\s*\(\s*&\s*prev\s*\)", al))
-    if re.search(r"keys\s*\.\s*retain\s*\(\s*\|\s*k\s*\|\s*k\s*!=\s*&\s*key\s*\)", al):
-        f["aliasDetachForm"] = "retain"
-    elif re.search(r"swap_remove\s*\(", al):
-        f["aliasDetachForm"] = "swap_remove"
-    elif re.search(r"keys\s*\.\s*remove\s*\(", al):
-        f["aliasDetachForm"] = "remove_at"
-    elif "retain" not in al:
-        f["aliasDetachForm"] = "none"             # nothing is taken out of the previous owner's list
-    else:
-        raise ExtractError("alias: detach form")
-    if has_prev:
-        f["aliasDetachesPrevOwner"] = True
-    elif re.search(r"alias_index\s*\.\s*get_mut\s*\(\s*&\s*peer_id\s*\)", al) or "get_mut" not in al:
-        f["aliasDetachesPrevOwner"] = False       # detaches from the wrong list / from none
-    else:
-        raise ExtractError("alias: detach target")
-    if re.search(r"entry\s*\(\s*peer_id\s*\)\s*\.\s*or_default\s*\(\s*\)\s*\.\s*push\s*\(\s*key\s*\)", al):
-        f["aliasPushForm"] = "push"
-    elif re.search(r"or_default\s*\(\s*\)\s*\.\s*insert\s*\(\s*0\s*,", al):
-        f["aliasPushForm"] = "insert_front"
-    else:
-        raise ExtractError("alias: push form")
-    if re.search(r"Some\s*\(\s*prev\s*\)\s*if\s+prev\s*==\s*peer_id\s*=>\s*return\s+true", al):
-        f["aliasSameOwnerEarlyReturn"] = True
-    elif not re.search(r"prev\s*==\s*peer_id|peer_id\s*==\s*prev|prev\s*!=\s*peer_id", al):
-        f["aliasSameOwnerEarlyReturn"] = False    # the same-owner case is not distinguished
-    else:
-        raise ExtractError("alias: same-owner form")
-    # ---- remove
-    rm = fn_body(imp, "remove")
-    if not re.search(r"peers\s*\.\s*remove\s*\(\s*&\s*id\s*\)", rm):
-        raise ExtractError("remove: primary removal form")
-    f["removeDropsPeer"] = True
-    if re.search(r"if\s+let\s+Some\s*\(\s*keys\s*\)\s*=\s*inner\s*\.\s*alias_index\s*\.\s*remove\s*\(\s*&\s*id\s*\)\s*\{", rm):
-        f["removeTakesIndexEntry"] = True
-    elif re.search(r"alias_index\s*\.\s*get\s*\(\s*&\s*id\s*\)", rm) or "alias_index" not in rm or re.search(r"alias_index\s*\.\s*remove\s*\(\s*&\s*id\s*\)\s*\.\s*filter", rm):
-        f["removeTakesIndexEntry"] = False        # entry left behind / ignored
-    else:
-        raise ExtractError("remove: reverse-index form")
-    if re.search(r"if\s+inner\s*\.\s*aliases\s*\.\s*get\s*\(\s*&\s*key\s*\)\s*==\s*Some\s*\(\s*&\s*id\s*\)\s*\{\s*inner\s*\.\s*aliases\s*\.\s*remove\s*\(\s*&\s*key\s*\)\s*;\s*\}", rm):
-        f["removePurgeGuard"] = "forward_eq_id"
-    elif re.search(r"aliases\s*\.\s*remove\s*\(\s*&\s*key\s*\)", rm) and len(re.findall(r"\bif\b", rm)) <= 1:
-        f["removePurgeGuard"] = "none"            # purges without the ownership check
-    elif re.search(r"aliases\s*\.\s*remove\s*\(\s*&\s*key\s*\)", rm):
-        f["removePurgeGuard"] = "other"           # a different guard decides what is purged
-    else:
-        raise ExtractError("remove: purge form")
-    # ---- lookups
-    kf = fn_body(imp, "key_for")
-    if re.search(r"keys\s*\.\s*first\s*\(\s*\)", kf):
-        f["keyForPick"] = "first"
-    elif re.search(r"keys\s*\.\s*last\s*\(\s*\)", kf):
-        f["keyForPick"] = "last"
-    else:
-        raise ExtractError("key_for: pick form")
-    gb = fn_body(imp, "get_by")
-    f["getByThroughPeers"] = bool(re.search(r"aliases\s*\.\s*get\s*\(\s*key\s*\)\s*\?", gb) and re.search(r"peers\s*\.\s*get\s*\(\s*&\s*id\s*\)", gb))
-    if not f["getByThroughPeers"]:
-        if re.search(r"peers\s*\.\s*get\s*\(", gb) or re.search(r"\.\s*resolve\s*\(", gb):
-            f["getByThroughPeers"] = True      # still goes through some helper / the peer map: unknown but harmless form
-            f.setdefault("unrecognised", []).append("get_by")
-        elif re.search(r"aliases\s*\.\s*get\s*\(", gb):
-            f["getByThroughPeers"] = False     # resolves the alias without consulting the peer map
-        else:
-            raise ExtractError("get_by: unrecognised form")
-    return f
+    return helper
 
 
 def render(f):
